@@ -117,6 +117,20 @@ fn neighbourhood(full: bool) -> Vec<Vec<u8>> {
     templates.push(cat(&[&[0x51, 0x21], &k33, &[0x01, 0x01, 0xae]]));
     templates.push(cat(&[&[0x76, 0xa9, 0x14], &[0u8; 20], &[0x88, 0xac]]));
     let _ = full;
+    // templates longer than 10 000 bytes (Bitcoin's MAX_SCRIPT_SIZE is a consensus rule about spending, not a template
+    // rule): a data slot filled by one PUSHDATA2 push, and padding with ignored no-ops
+    let big: Vec<u8> = (0..10_050u32).map(|i| (i % 251) as u8).collect();
+    for n in [9_990usize, 9_995, 9_996, 9_997, 10_000, 10_050] {
+        let len = (n as u16).to_le_bytes();
+        out.push(cat(&[&[0x76, 0xa9, 0x4d], &len, &big[..n], &[0x88, 0xac]]));
+        out.push(cat(&[&[0xa9, 0x4d], &len, &big[..n], &[0x87]]));
+        out.push(cat(&[&[0x4d], &len, &big[..n], &[0xac]]));
+        out.push(cat(&[&[0x6a, 0x4d], &len, &big[..n]]));
+        out.push(cat(&[&[0x51, 0x4d], &len, &big[..n], &[0x51, 0xae]]));
+        let mut padded = vec![0x61u8; n];
+        padded.extend(cat(&[&[0x76, 0xa9, 0x14], &h20, &[0x88, 0xac]]));
+        out.push(padded);
+    }
     for t in &templates {
         out.push(t.clone());
         for pos in 0..t.len() {
@@ -316,6 +330,22 @@ fn main() {
     }
     // panics inside catch_unwind are expected to be reported through verdicts, not on stderr
     std::panic::set_hook(Box::new(|_| {}));
+    // a logger at TRACE level that formats every record into nothing: the arguments of the repository's debug! / trace!
+    // calls are then evaluated in-process too (code that only runs at -v / -vv is part of what the properties cover)
+    struct Sink;
+    impl log::Log for Sink {
+        fn enabled(&self, _: &log::Metadata) -> bool {
+            true
+        }
+        fn log(&self, r: &log::Record) {
+            use std::io::Write;
+            let _ = write!(std::io::sink(), "{}", r.args());
+        }
+        fn flush(&self) {}
+    }
+    if log::set_boxed_logger(Box::new(Sink)).is_ok() {
+        log::set_max_level(log::LevelFilter::Trace);
+    }
     if catch_unwind(vpmodel::self_test).is_err() {
         println!("INFRA model self test failed");
         std::process::exit(2);
